@@ -307,7 +307,7 @@ func swapHostsCase(rt *rapid.T) {
 	ca := cluster.GetClusterMngAdapterInstance()
 	name := n.k(0)
 
-	ops := []*op{{Kind: "AddOrUpdateClusterAndHost", Cluster: genClusterAttrs(rt), Hosts: versionHosts(rt, 0, 1)}}
+	ops := []*op{{Kind: "AddOrUpdateClusterAndHost", Cluster: genClusterAttrs(rt, nil), Hosts: versionHosts(rt, 0, 1)}}
 	nUpd := rapid.IntRange(2, 24).Draw(rt, "updates")
 	for i := 1; i <= nUpd; i++ {
 		o := &op{}
@@ -319,9 +319,9 @@ func swapHostsCase(rt *rapid.T) {
 		case 5, 6:
 			o.Kind = "RemoveClusterHosts" // addresses are chosen below against the model state of the previous version
 		case 7:
-			o.Kind, o.Cluster = "AddOrUpdatePrimaryCluster", genClusterAttrs(rt)
+			o.Kind, o.Cluster = "AddOrUpdatePrimaryCluster", genClusterAttrs(rt, nil)
 		case 8:
-			o.Kind, o.Cluster, o.Hosts = "AddOrUpdateClusterAndHost", genClusterAttrs(rt), versionHosts(rt, i, 0)
+			o.Kind, o.Cluster, o.Hosts = "AddOrUpdateClusterAndHost", genClusterAttrs(rt, nil), versionHosts(rt, i, 0)
 		default:
 			o.Kind = "XdsEndpoints"
 			o.XdsEs = []xdsCLA{{K: 0, Locs: [][]mHost{versionHosts(rt, i, 0)}}} // one locality: see known finding F13
